@@ -1,9 +1,22 @@
 import XvcPipeline.Sched
+import XvcPipeline.Gen.RunCond
 /-!
 # Label sequences used by the non-vacuity examples of the property files (not part of the model)
 -/
 namespace Sched
 open Gen
+
+/-- two steps, step 1 depends on step 0, both `by_dependencies` with recorded dependencies, pool 1 -/
+def demoChain : Cfg :=
+  { n := 2, deps := fun i => if i = 1 then [0] else [], pool := 1, rc := fun _ => run_calculated, noDeps := fun _ => false }
+
+/-- three independent steps, pool 1 -/
+def demoPool : Cfg :=
+  { n := 3, deps := fun _ => [], pool := 1, rc := fun _ => run_always, noDeps := fun _ => true }
+
+/-- step 2 depends on steps 0 and 1 -/
+def demoJoin : Cfg :=
+  { n := 3, deps := fun i => if i = 2 then [0, 1] else [], pool := 2, rc := fun _ => run_calculated, noDeps := fun _ => false }
 
 def toRunning (s : Nat) : List Label :=
   [.handler s .CheckedOutputs, .publish s, .handler s .SuperficialDiffsChanged, .publish s,
@@ -25,5 +38,34 @@ def runTo (s : Nat) (ok : Bool) : List Label :=
    .handler s .ThoroughDiffsChanged, .publish s, .handler s .DiffsHasChanged, .publish s,
    .handler s .StartProcess, .publish s, .handler s .WaitProcess, .publish s, .procExit s ok,
    .handler s (if ok then .ProcessCompletedSuccessfully else .ProcessReturnedNonZero), .publish s] ++ deliverN s 10
+
+/-- step 0 runs and succeeds, step 1 waits, sees it done, and starts its command -/
+def demoOk : List Label :=
+  [.publish 0, .handler 0 .RunConditional, .publish 0, .handler 0 .DependencyStepsFinishedSuccessfully, .publish 0] ++
+  toRunning 0 ++
+  [.publish 1, .handler 1 .RunConditional, .publish 1, .handler 1 .DependencyStepsRunning, .publish 1,
+   .procExit 0 true, .handler 0 .ProcessCompletedSuccessfully, .publish 0] ++ deliverN 0 10 ++
+  [.handler 1 .DependencyStepsFinishedSuccessfully, .publish 1] ++ toRunning 1
+
+/-- step 0 fails, step 1 ends `Broken` without starting: hypotheses of `C10_failed_upstream_blocks` -/
+def demoFail : List Label :=
+  [.publish 0, .handler 0 .RunConditional, .publish 0, .handler 0 .DependencyStepsFinishedSuccessfully, .publish 0] ++
+  toRunning 0 ++
+  [.publish 1, .handler 1 .RunConditional, .publish 1, .handler 1 .DependencyStepsRunning, .publish 1,
+   .procExit 0 false, .handler 0 .ProcessReturnedNonZero, .publish 0] ++ deliverN 0 10 ++
+  [.handler 1 .DependencyStepsFinishedBroken, .publish 1]
+
+/-- the condition under which the unrepaired `s_waiting_dependency_steps_f_dependency_steps_running` returned -/
+def oldWaitReturns (c : Cfg) (σ : Sys) (s : Nat) : Bool :=
+  allDone c σ s || (c.deps s).all (fun d => (σ.pub d).1 == .Broken)
+
+def f5Labels : List Label :=
+  [.publish 2, .handler 2 .RunConditional, .publish 2, .handler 2 .DependencyStepsRunning, .publish 2] ++
+  runTo 0 true ++ runTo 1 false
+
+theorem f5_isSome : (runL demoJoin (init demoJoin) f5Labels).isSome = true := by decide
+
+/-- step 2 waits, step 0 ended `DoneByRunning`, step 1 ended `Broken`, everything delivered -/
+def f5State : Sys := (runL demoJoin (init demoJoin) f5Labels).get f5_isSome
 
 end Sched
